@@ -67,5 +67,5 @@ contract(f"{R}::Router.from_config#acl", props=["C20"], bounded=2,
 # ---- the whole loader against an independently derived inventory: BOUNDED stand-in (generated scenario family) ------------------------------
 from pyvc.contracts import native_bounded  # noqa: E402
 native_bounded("C20", "loader-inventory", "bounded/loader_inventory.py",
-               "one switch/computer/server/router and three links; 33 single-point variations of every declared item kind, each also with all mapping keys in reverse order",
+               "one switch, computer, server, router, firewall and four links; 38 single-point variations of every declared item kind (firewall included), each also with all mapping keys in reverse order",
                "inventory read off the object graph built by the real PrimaiteGame.from_config == inventory derived independently from the scenario dictionary")
